@@ -136,7 +136,7 @@ TABLE.update({
     "c02_literal_constant_value_zero.diff": ("contracts.c02", "lower_bundle_literal", "elements: const, const"),
     "c02_all_lowered_as_anything.diff": ("contracts.c02", "lower_bundle_all", None),
     "c02_select_reads_each.diff": ("contracts.c02", "lower_bundle_select", None),
-    "c02_wildcard_ranges_over_scalar.diff": ("contracts.c01", "_lower_comparison_op", "op <="),
+    "c02_wildcard_ranges_over_scalar.diff": ("contracts.c02", "IRBuilder.decider", None),
     "c08_preserved_shares_network_zero.diff": ("contracts.c12", "_restore_preserved_connection", None),
     "c08_preserved_routing_failure_ignored.diff": ("contracts.c12", "_restore_preserved_connection", None),
     "c08_preserved_span_doubled.diff": ("contracts.c12", "_restore_preserved_connection", None),
